@@ -34,7 +34,7 @@ ASSUMPTIONS = [
 ]
 CHUNK = 1
 
-BASES = ["rydberg", "rydberg_local", "dmm", "raman", "xy", "xy_idle", "mixed"]
+BASES = ["rydberg", "rydberg_local", "dmm", "raman", "xy", "xy_idle", "mixed", "mixed_detuning_only", "rydberg_init"]
 
 
 def _noises():
@@ -93,6 +93,10 @@ def _spec(basis):
     elif basis == "mixed":
         spec["basis"] = "mixed"
         spec["pulses"] = p + [dict(p[0], ch="ch2")]
+    elif basis == "mixed_detuning_only":
+        # the digital basis is addressed with zero amplitude but a non-zero detuning (a light shift): still a three-level problem for Pulser
+        spec["basis"] = "mixed"
+        spec["pulses"] = p + [{"amp": ["const", 60, 0.0], "det": ["const", 60, 8.0], "phase": 0.0, "ch": "ch2"}]
     return spec
 
 
@@ -136,6 +140,12 @@ def run_case(case):
     obs = [mod.Occupation(evaluation_times=ev), mod.CorrelationMatrix(evaluation_times=ev), mod.Energy(evaluation_times=ev)]
     ckw = {}
     cfg_init = None
+    if basis == "rydberg_init":
+        cfg_init = "product:10"
+        try:
+            ckw["initial_state"] = sv.StateVector.from_state_amplitudes(eigenstates=("r", "g"), amplitudes={"rg": 1.0}) if backend == "sv" else runner.mps_initial_state(2, "product:10")
+        except Exception:
+            pass
     if basis == "xy_idle":
         cfg_init = "product:10"
         st_cls = sv.StateVector if backend == "sv" else m.MPS
@@ -168,17 +178,18 @@ def run_case(case):
         res = None
     lind = nz in ("relaxation", "dephasing", "hyperfine_dephasing", "depolarizing", "eff_noise", "leakage", "relaxation+dephasing", "SPAM+relaxation")
     must_refuse = (
-        basis in ("raman", "mixed")
+        basis in ("raman", "mixed", "mixed_detuning_only")
+        or (basis == "rydberg_init" and "SPAM" in nz)  # a user initial state together with state-preparation errors is documented as not implemented
         or (backend == "sv" and (basis in ("xy", "xy_idle") or nz == "leakage"))
         or (solver == "dmrg" and nz != "none")
     )
     if res is None:
         # refusing is always allowed by the property; but a plain noiseless rydberg run must work
-        if nz == "none" and basis in ("rydberg", "rydberg_local", "dmm") or (nz == "none" and basis in ("xy", "xy_idle") and backend == "mps" and solver != "dmrg"):
+        if nz == "none" and basis in ("rydberg", "rydberg_local", "dmm", "rydberg_init") or (nz == "none" and basis in ("xy", "xy_idle") and backend == "mps" and solver != "dmrg"):
             return result(False, sig=f"refuses-supported|{backend}|{solver}|{basis}", msg=f"{label}: raised {outcome[1]} although the combination is documented as supported", outcome=outcome)
         return result(True, outcome=outcome, nontrivial=must_refuse or nz != "none")
     if must_refuse:
-        why = "basis" if basis in ("raman", "mixed", "xy", "xy_idle") else ("leakage" if nz == "leakage" else "dmrg+noise")
+        why = "basis" if basis in ("raman", "mixed", "mixed_detuning_only", "xy", "xy_idle") else ("initial-state+spam" if basis == "rydberg_init" else None) or ("leakage" if nz == "leakage" else "dmrg+noise")
         occ = runner.to_np(runner.get_at(res, "occupation", 1.0))
         return result(False, sig=f"accepted|{backend}|{solver}|{why}", msg=f"{label}: returned Results (occupation at t=1: {np.round(occ, 5).tolist()}) for a combination the backend cannot emulate", outcome="accepted")
     # accepted: compare with Pulser's dynamics where the result is deterministic
